@@ -216,6 +216,17 @@ def prove(o, phi, what, cls, out, extra=None):
 
 
 # ------------------------------------------------------------------ checks (symbolic)
+REFUSALS = ("ScoringSchemeNotHandledException", "InompleteRankingsIncompatibleWithScoringSchemeException",
+            "IncompatibleArgumentsException")
+
+
+def chk_crash(o, out):
+    """an exception that is not a documented refusal is never silently skipped: it becomes a candidate that the replay
+    confirms (violation) or not (inconclusive: the symbolic run could not follow the real code)"""
+    if o.exc is not None and type(o.exc).__name__ not in REFUSALS:
+        prove(o, False, f"raised {type(o.exc).__name__}: {str(o.exc)[:300]}", "raises", out)
+
+
 def chk_accepts(o, out):
     """no exception at all on this path (used where the algorithm must accept the input)"""
     if o.exc is not None:
@@ -518,6 +529,7 @@ def run_item(args):
 
     def path(ctx):
         o = observe(ctx, cfg, lvs, names, flag, B, T, sc, ds)
+        chk_crash(o, out)
         for c in checks:
             if len(out) >= 3:
                 break
@@ -541,7 +553,47 @@ def dataset_pool(n, m, allow_empty=False):
     return list(shapes.datasets(n, m, cover=True, allow_empty=allow_empty))
 
 
-def make_items(run, configs, checks, flags=(True, False), light=None, heavy=None, extra4=None):
+def cycles3():
+    """Condorcet strata on 3 elements: the two cyclic triples of linear orders, each optionally followed by an all-tied
+    ranking or a ranking with one tie (the classic instances where the graph of elements is one component)"""
+    out = []
+    for base in (((0, 1, 2), (1, 2, 0), (2, 0, 1)), ((0, 2, 1), (2, 1, 0), (1, 0, 2))):
+        out.append(base)
+        out.append(base + ((0, 0, 0),))
+        out.append(base + ((0, 0, 1),))
+        out.append(base[:2] + ((1, 0, 0),))
+        out.append(base + ((0, -1, 1),))
+    return out
+
+
+def sparse4():
+    """n=4, m=3: two rankings over three elements + one ranking that misses that whole group (sub-problem projection)"""
+    out = []
+    for a in ((0, 0, 1, -1), (0, 1, 0, -1), (1, 0, 2, -1), (0, 1, -1, 0)):
+        for b in ((1, 0, -1, 0), (-1, 0, 1, 0), (0, -1, 0, 1), (2, 1, 0, -1)):
+            for c in ((-1, -1, -1, 0), (-1, -1, 0, -1), (0, -1, -1, -1)):
+                ds = (a, b, c)
+                if all(any(r[e] != -1 for r in ds) for e in range(4)):
+                    out.append(ds)
+    return out
+
+
+def comp3plus1():
+    """n=4, m=2..3: three elements forming one component that cannot be all tied (two rankings agree on one pair and
+    disagree on the others) plus a fourth element that every ranking puts last / first / omits"""
+    out = []
+    for a, b in (((0, 1, 2), (1, 2, 0)), ((0, 1, 1), (2, 0, 1)), ((0, 1, 2), (2, 0, 1)), ((1, 0, 2), (0, 2, 1))):
+        out.append((a + (3,), b + (3,)))
+        out.append((tuple(x + 1 for x in a) + (0,), tuple(x + 1 for x in b) + (0,)))
+        out.append((a + (3,), b + (-1,)))
+        out.append((a + (-1,), b + (-1,), (-1, -1, -1, 0)))
+    return out
+
+
+STRATA = {"cycles3": cycles3, "sparse4": sparse4, "comp3plus1": comp3plus1}
+
+
+def make_items(run, configs, checks, flags=(True, False), light=None, heavy=None, strata=(), strata_heavy=()):
     """light / heavy: {(n, m): number of datasets to sample or None for all}; returns the work items and fills run.bounds"""
     import random
     rnd = random.Random(run.seed)
@@ -557,6 +609,26 @@ def make_items(run, configs, checks, flags=(True, False), light=None, heavy=None
                 names = NAMINGS[n][i % len(NAMINGS[n])]
                 for fl in flags:
                     items.append((cfg, lvs, names, fl, checks))
+        st_list = strata_heavy if cfg in HEAVY else strata
+        if isinstance(st_list, dict):
+            st_list = st_list.get(cfg, st_list.get("*", []))
+        for st in st_list:
+            name, k = (st, None) if isinstance(st, str) else st
+            pool = STRATA[name]()
+            chosen = pool if (k is None or k >= len(pool)) else rnd.sample(pool, k)
+            desc.setdefault(cfg, []).append({"stratum": name, "datasets": len(chosen), "of": len(pool)})
+            for i, lvs in enumerate(chosen):
+                n = len(lvs[0])
+                for fl in flags:
+                    items.append((cfg, lvs, NAMINGS[n][i % len(NAMINGS[n])], fl, checks))
     run.bounds["sweep (per configuration: shapes n, m; datasets explored / all)"] = desc
     run.bounds["scheme"] = "12 symbolic reals under the validity constraints, on every path"
     return items
+
+
+def order_items(items):
+    """heavy configurations and larger shapes first (shorter tail when spread over the workers)"""
+    def w(it):
+        cfg, lvs = it[0], it[1]
+        return -((4 if cfg in HEAVY else 1) * (len(lvs[0]) ** 3) * len(lvs))
+    return sorted(items, key=w)
